@@ -291,7 +291,11 @@ func (g *Gen) assumeLoaded(h Heap, v Val) {
 		}
 		return
 	}
-	g.S.assert(g.typeAssume(v))
+	// typing facts are assumptions about unknown memory: only for a plain read of a named heap version (see isRawHeapLoad);
+	// a value the program built and stored earlier carries whatever the program established about it, nothing more
+	if isRawHeapLoad(v.T) || !strings.HasPrefix(v.T, "(") {
+		g.S.assert(g.typeAssume(v))
+	}
 	g.assumeAllocated(h, v)
 }
 
